@@ -1,5 +1,7 @@
 package core
 
+import "os"
+
 import "sort"
 
 // Prop is one property's workload + oracle.
@@ -42,3 +44,11 @@ func AllIDs() []string {
 
 // Root is the /verif directory (set by the worker from -root).
 var Root = "/verif"
+
+// RepoDir is the directory of the library under test (check.sh exports VERIF_REPO).
+func RepoDir() string {
+	if d := os.Getenv("VERIF_REPO"); d != "" {
+		return d
+	}
+	return "/repo"
+}
